@@ -11,7 +11,7 @@ import z3
 
 from symnum import CTX, S, install, oarr, symarr, toz, explore
 from .common import Case, neq_any, rel_close
-from .wrappers import WRAPPERS, apply_cuts
+from .wrappers import WRAPPERS, apply_cuts, tetra_mesh, UNIT_TETRA
 from . import level2 as L2
 
 PROPERTY = "C06"
@@ -42,7 +42,7 @@ ASSUMPTIONS = [
 ]
 NOT_DECIDED = [
     "exact row independence of the iterative elliptic loops (cel_iterv iterates all rows until the slowest converges)",
-    "BHJM_magnet_trimesh equal-mesh grouping loop (covered with C13 harness only for value identity)",
+    "BHJM_magnet_trimesh: only meshes with equal face counts from a fixed list (two tetrahedra); ragged face counts not run",
 ]
 
 FIELDS = "BHJM"
@@ -58,6 +58,12 @@ def cases(tier, seed):
         if name == "tetra":
             out.append({"id": "rows-tetra", "kind": "rows", "wrapper": name, "weight": 4,
                         "fixed": {"vertices": [[(0, 0, 0), (1, 0, 0), (0, 1, 0), (0, 0, 1)], [(0, 0, 0), (0, 2, 0), (1, 0, 0), (0, 0, 1)]]}})
+            continue
+        if name == "trimesh":
+            # two different meshes with equal face count in one call (the equal-mesh grouping loop), and two equal ones
+            A_, B_ = tetra_mesh(UNIT_TETRA).tolist(), tetra_mesh(UNIT_TETRA, shift=(3, 0, 0), scale=2.0).tolist()
+            out.append({"id": "rows-trimesh-different", "kind": "rows", "wrapper": name, "weight": 6, "fixed": {"mesh": [A_, B_]}})
+            out.append({"id": "rows-trimesh-equal", "kind": "rows", "wrapper": name, "weight": 6, "fixed": {"mesh": [A_, A_]}})
             continue
         if name in ("cuboid", "cylinder", "cylseg_internal"):
             # split the input space by the signs of the x-coordinates of both observers (4 disjoint, jointly exhaustive parts)
@@ -205,6 +211,16 @@ def replay(spec):
         alone = np.asarray(w.call_float(f, {k: v[[0]] for k, v in args.items()}))
         sw = np.asarray(w.call_float(f, {k: v[[1, 0]] for k, v in args.items()}))
         bad = not (rel_close(both[0], alone[0], 1e-9) and rel_close(both[0], sw[1], 1e-9) and rel_close(both[1], sw[0], 1e-9))
+        if not bad and spec["wrapper"] == "trimesh" and not spec.get("_refined"):
+            # the inside test is abstracted in the symbolic run, so the model's observers are arbitrary: refine the candidate with
+            # observers at the centroids of the meshes of either row (where the inside decisions of the two meshes differ)
+            cents = [np.asarray(m, dtype=float).reshape(-1, 3).mean(axis=0) for m in spec["args"]["mesh"]]
+            for c0 in cents:
+                for c1 in cents:
+                    a2 = dict(spec["args"], observers=[c0.tolist(), c1.tolist()])
+                    ok, detail = replay(dict(spec, args=a2, _refined=True))
+                    if ok:
+                        return ok, detail
         return bad, f"{w.func}(field={f}) args={spec['args']}: batch={both.tolist()} alone={alone.tolist()} swapped={sw.tolist()}"
     if kind == "vertices":
         from magpylib._src.fields import field_BH_polyline as PL
